@@ -339,7 +339,10 @@ class Histories(Contract):
                         _, k, fn = op
                         try:
                             set_plugin(k, fn, reg)
-                            pinned[k] = registered[fn]
+                            if fn not in registered:
+                                bad = (seq, f"set_plugin({k!r}, {fn!r}) accepted a full name that is not registered")
+                            else:
+                                pinned[k] = registered[fn]
                         except ValueError:
                             if fn in registered:
                                 bad = (seq, "set_plugin rejected a registered full name")
